@@ -935,9 +935,19 @@ class Interp(object):
     def dict_set(self, d, key, val):
         k = _hkey(key)
         if k is None:
-            raise EngineError('symbolic dictionary key')
-        if not all(_hkey_concrete(x) for x in d.items):
-            raise EngineError('dictionary with symbolic keys')
+            # a key whose equality with the existing keys is symbolic: decide it key by key
+            if self.ctx.spec:
+                raise EngineError('symbolic dictionary key in a specification')
+            for kk in list(d.items):
+                if self.ctx.branch(self.equal_term(key, kk)):
+                    d.items[kk] = val
+                    return
+            try:
+                hash(key)
+            except TypeError:
+                raise EngineError('unhashable symbolic dictionary key')
+            d.items[key] = val
+            return
         d.items[k] = val
 
     def eval_Attribute(self, node, frame):
@@ -1195,8 +1205,10 @@ class Interp(object):
             return self.opaque_call(fv, args, kwargs, node)
         if hasattr(fv, 'pyvc_call'):
             return fv.pyvc_call(self, args, kwargs)
-        if is_str(fv) or is_int(fv):
-            self.raise_builtin('TypeError', 'wd:type[not callable]')
+        if isinstance(fv, V.AbsVal) and '__call__' in fv.methods:
+            return fv.methods['__call__'](self, fv, args, kwargs)
+        if is_str(fv) or is_int(fv) or isinstance(fv, (PyList, PyDict, PySet, tuple, frozenset)) or is_boolv(fv):
+            self.raise_builtin('TypeError', 'wd:type[object is not callable %s]' % _src(node))
         raise EngineError('call of %r' % (fv,))
 
     def opaque_call(self, fv, args, kwargs, node):
@@ -1214,7 +1226,9 @@ class Interp(object):
         if self.registry is not None:
             c = self.registry.class_contract(cls)
             if c is not None:
-                return c.instantiate(self, cls, args, kwargs, node)
+                r = c.instantiate(self, cls, args, kwargs, node)
+                if r is not NotImplemented:
+                    return r
         o = Obj(cls)
         r = self.class_lookup(cls, '__init__')
         if r is None or r[0].builtin:
@@ -1466,7 +1480,10 @@ class Interp(object):
         frame.vars[node.name] = self.make_func(node, frame.module, frame, None, qn)
 
     def exec_ClassDef(self, node, frame):
-        raise EngineError('nested class definition')
+        if node.bases or node.decorator_list or node.keywords:
+            raise EngineError('nested class definition with bases/decorators')
+        ci = ClassInfo(node.name, frame.module, node, [self.program.builtin_classes['object']])
+        frame.vars[node.name] = ci
 
     def exec_Return(self, node, frame):
         v = self.eval(node.value, frame) if node.value is not None else None
